@@ -84,6 +84,7 @@ type Frame struct {
 	depth   int
 	defers  []*ssa.Defer
 	goBodies []*ssa.Function
+	onReturn func(st *State, vals []Val)
 }
 
 type retPoint struct {
@@ -189,13 +190,14 @@ func VerifyFunction(p *Program, fn *ssa.Function, c *Contract) (fc *FuncCtx, err
 	}
 	// vacuity guard on the precondition
 	fc.obls = append(fc.obls, &Obligation{Name: fr.prefix + "#vacuity:requires#1", Kind: "vacuity", Func: fr.prefix, Hyps: fc.axioms, PC: st.pc, Goal: True, ExpectSat: true, Pos: p.pos(fn.Pos()), Desc: "precondition is satisfiable", Props: c.Props})
-	ret, vals := fc.run(fr, st, args, fvs)
+	fr.onReturn = func(rst *State, vals []Val) { fc.checkPost(fr, rst, vals) }
+	ret, _ := fc.run(fr, st, args, fvs)
 	if ret == nil || ret.dead {
 		// no normal return (e.g. always panics / infinite loop)
 		return fc, nil
 	}
-	// postconditions
-	fc.checkPost(fr, ret, vals)
+	// smoke: some exit must be reachable
+	fc.obls = append(fc.obls, &Obligation{Name: fr.prefix + "#vacuity:return#1", Kind: "vacuity", Func: fr.prefix, Hyps: fc.axioms, PC: ret.pc, Goal: True, ExpectSat: true, Pos: fc.p.pos(fr.fn.Pos()), Desc: "some return is reachable", Props: c.Props})
 	return fc, nil
 }
 
@@ -334,8 +336,6 @@ func (fc *FuncCtx) checkPost(fr *Frame, ret *State, vals []Val) {
 	}
 	// frame
 	fc.checkFrame(fr, ret, "frame", fr.fn.Pos(), nil)
-	// smoke: the exit must be reachable
-	fc.obls = append(fc.obls, &Obligation{Name: fr.prefix + "#vacuity:return#1", Kind: "vacuity", Func: fr.prefix, Hyps: fc.axioms, PC: ret.pc, Goal: True, ExpectSat: true, Pos: fc.p.pos(fr.fn.Pos()), Desc: "some return is reachable", Props: c.Props})
 }
 
 // frameFormula: every old location of heap h outside the frame is unchanged between a and b
@@ -1057,9 +1057,17 @@ type invariant struct {
 }
 
 func (fc *FuncCtx) bindLoopVars(fr *Frame, li *loopInfo, st *State, env *Env) {
-	if li.rangeIx != nil {
-		if v, ok := st.cells[li.rangeIx]; ok && v.T != nil {
-			env.vars["$i"] = SVal{T: Add(v.T, IntLit(1)), Typ: tInt}
+	// $i: number of completed iterations of this range loop (= next index);
+	// $i<n>: the same for the enclosing/other range loop with ordinal n
+	for _, l := range fr.loops {
+		if l.rangeIx != nil {
+			if v, ok := st.cells[l.rangeIx]; ok && v.T != nil {
+				t := SVal{T: Add(v.T, IntLit(1)), Typ: tInt}
+				env.vars[fmt.Sprintf("$i%d", l.ordinal)] = t
+				if l == li {
+					env.vars["$i"] = t
+				}
+			}
 		}
 	}
 }
@@ -1177,6 +1185,9 @@ func (fc *FuncCtx) execBlock(fr *Frame, b *ssa.BasicBlock, st *State, in map[*ss
 			var vals []Val
 			for _, r := range x.Results {
 				vals = append(vals, fc.value(fr, r))
+			}
+			if fr.onReturn != nil {
+				fr.onReturn(st.clone(), vals)
 			}
 			*rets = append(*rets, retPoint{st: st, vals: vals})
 			return
